@@ -46,12 +46,18 @@ TRUSTED = [
     "exercised by the SIGKILL cases of the thorough tier only",
     "reference keys and relationship queries are not in the Coq model: they are compared between the recovered store and the crash-free "
     "reference run of the implementation by lib/props/c04.py (canonicalised: URIs for ids, ranks for times)",
-    "internal ids are compared as sets (URIs known, ids in use): the assignment order inside one write follows Go map iteration",
+    "internal ids are compared as sets (URIs known, ids in use): the assignment order inside one write follows Go map iteration; the order "
+    "in which a transaction's datasets are processed (a Go map range) is observed through the driver's statsd client and given to the model",
+    "F04b (first NewStore after a SIGKILL during Close fails once) is detected and reported by the Python harness, not modelled in Coq",
 ]
 ASSUMPTIONS = ["one client; no dataset create/delete/rename, compaction or job token inside a history (C07, C12, C08 cover their own crash points)",
                "core.Dataset itself is not written by the histories"]
 
 CODES = sc.Codes()
+CASES_SEEN = []
+# badger v4.2.0: logFile.Delete truncates the memtable WAL to 0 and then removes it; a kill in between leaves an empty NNNNN.mem,
+# which the next Open reports as "Create a new file"; Store.Open only logs the error and goes on with a nil database
+F04B_SIGNATURE = "while opening memtables"
 
 
 # ------------------------------------------------------------------------------------------------ cases
@@ -193,26 +199,43 @@ def done_ops(trace):
     return [(t.get("op", 0), t.get("err", "")) for t in trace if t["k"] == "done"]
 
 
+def share_order(trace, idx):
+    """datasets of op idx in the order StoreEntitiesWithTransaction was entered for them"""
+    out, on = [], False
+    for t in trace:
+        if t["k"] == "op":
+            on = t.get("op", 0) == idx
+        elif t["k"] == "done":
+            on = False
+        elif on and t["k"] == "share" and t.get("a") not in out:
+            out.append(t.get("a"))
+    return out
+
+
 def crash_position(c, o):
-    """(kind, op index, phase, cdone, dataset order) from the child's trace"""
+    """(kind, op index, phase, datasets whose counter commit completed, processing order) from the child's trace"""
     if o.get("exit") == 0:
-        return ("none", -1, 0, 0, [])
+        return ("none", -1, 0, [], [])
     idx = o.get("inprog", -1)
+    order = share_order(o["trace"], idx) if idx >= 0 else []
     if o.get("exit") == -1 or (c.get("crash") or {}).get("kill_line"):
-        return ("kill", idx, 0, 0, [])
+        return ("kill", idx, 0, [], order)
     if idx < 0:
-        return ("kill", idx, 0, 0, [])   # died outside a write (cannot happen for hook points; treated as unknown instant)
+        return ("kill", idx, 0, [], order)   # died outside a write (cannot happen for hook points; treated as unknown instant)
     op = c["ops"][idx]
     lines = op_lines(o["trace"], idx)
     pre = "batch." if op["op"] == "batch" else "txn."
     top = [n for n, a in lines if n.startswith(pre) and (op["op"] == "txn" or a == op["ds"])]
     phase = 2 if pre + "afterCommit" in top else (1 if pre + "afterIdCommit" in top else 0)
-    cdone = sum(1 for n, a in lines if n == "batch.afterCommit" and a == "core.Dataset")
-    order = []
+    # counter commits: updateDataset.afterRead(X) ... batch.afterCommit(core.Dataset) = the counter of X is committed
+    done, cur = [], None
     for n, a in lines:
-        if n in ("updateDataset.afterRead", "txn.afterUpdateDataset") and a != "core.Dataset" and a not in order:
-            order.append(a)
-    return ("hook", idx, phase, cdone, order)
+        if n == "updateDataset.afterRead" and a != "core.Dataset":
+            cur = a
+        elif n == "batch.afterCommit" and a == "core.Dataset" and cur is not None:
+            done.append(cur)
+            cur = None
+    return ("hook", idx, phase, done, order)
 
 
 # ------------------------------------------------------------------------------------------------ Coq terms
@@ -270,12 +293,13 @@ def usable(o):
 def tail_ops(c, o):
     """the tail as executed: 'retry' resolved to the interrupted write (dropped if there was none)"""
     res = []
-    for op, oo in zip(c["tail"], o.get("tail") or []):
+    shares = o.get("tail_shares") or []
+    for i, (op, oo) in enumerate(zip(c["tail"], o.get("tail") or [])):
         if op["op"] == "retry":
             if o.get("inprog", -1) < 0:
                 continue
             op = c["ops"][o["inprog"]]
-        res.append((op, oo.get("lens") or []))
+        res.append((op, oo.get("lens") or [], (shares[i] if i < len(shares) else None) or []))
     return res
 
 
@@ -292,23 +316,18 @@ def term(c, o):
     prefix = []
     for i in range(n):
         op = c["ops"][i]
-        prefix.append("ERestart" if op["op"] == "restart" else "EOp %s" % wop_term(c, op, lens.get(i)))
+        prefix.append("ERestart" if op["op"] == "restart" else "EOp %s" % wop_term(c, op, lens.get(i), share_order(o["trace"], i)))
     if kind == "none":
         crash = "CNone"
     elif kind == "hook":
-        crash = "CHook %s %d %d" % (wop_term(c, c["ops"][idx], lens.get(idx), order), phase, cdone)
+        crash = "CHook %s %d %s" % (wop_term(c, c["ops"][idx], lens.get(idx), order), phase,
+                                    vlib.coq_list([str(sc.ds_code(c, d)) for d in cdone]))
     elif idx < 0:
         crash = "CKill []"
     else:
-        op = c["ops"][idx]
-        if op["op"] == "txn":
-            names = [s["ds"] for s in op["sets"]]
-            alts = [wop_term(c, op, lens.get(idx), list(p)) for p in itertools.permutations(names)]
-        else:
-            alts = [wop_term(c, op, lens.get(idx))]
-        crash = "CKill %s" % vlib.coq_list(alts)
+        crash = "CKill [%s]" % wop_term(c, c["ops"][idx], lens.get(idx), order)
     base = o["base"]
-    tail = vlib.coq_list([wop_term(c, op, ls) for op, ls in tail_ops(c, o)])
+    tail = vlib.coq_list([wop_term(c, op, ls, sh) for op, ls, sh in tail_ops(c, o)])
     refA = vlib.coq_list([dsd_term(c, d, o["refA"].get("ns") or {}) for d in o["refA"]["ds"]])
     refB = "None"
     if o.get("refB"):
@@ -434,11 +453,20 @@ def main(tier, seed, replay=None):
     import sys
     P = sys.modules[__name__]
     bad = []
+    first_open = []
     orig_run = P.run
 
     def run_and_check(binp, cases):
         obs = orig_run(binp, cases)
+        CASES_SEEN.clear()
+        CASES_SEEN.extend(zip(cases, obs))
         for i, (c, o) in enumerate(zip(cases, obs)):
+            if o.get("first_open"):
+                if F04B_SIGNATURE in o["first_open"] and o.get("exit") == -1:
+                    first_open.append(i)
+                else:
+                    bad.append((i, c, o, "the first NewStore after the child's death failed: " + o["first_open"][:400]))
+                    continue
             if not usable(o):
                 bad.append((i, c, o, "driver outcome %s: %s" % (o.get("outcome"), (o.get("detail") or (o.get("after") or {}).get("err") or "")[:300])))
                 continue
@@ -458,8 +486,17 @@ def main(tier, seed, replay=None):
             setattr(S, k, getattr(P, k))
     S.run = run_and_check
     rc = engine.run_check(S, tier, seed, replay)
+    if first_open:
+        known = {f["id"]: f for f in vlib.load_known()}
+        if known.get("F04b", {}).get("status") == "open":
+            print("KNOWN-FINDING: property=%s F04b %s (%d of the SIGKILL cases of this run)" % (ID, known["F04b"]["what"], len(first_open)))
+        else:
+            i = first_open[0]
+            bad.insert(0, (i, None, None, "F04b (first NewStore after a SIGKILL fails) is exhibited and not listed as an open finding"))
     if bad:
         i, c, o, what = bad[0]
+        if c is None:
+            c, o = CASES_SEEN[i]
         path = vlib.write_replay(ID, {"property": ID, "kind": "failing-input", "what": what, "case": c, "observed": o})
         print("VIOLATION property=%s replay=%s" % (ID, path))
         return 1
